@@ -89,7 +89,19 @@ static std::string render(const std::string& api, F& f)
     if (api == "stream" || api == "args+stream")
     {
         std::ostringstream o;
-        o << "<" << f << ">";
+        o << "<";
+        try
+        {
+            o << f;
+        }
+        catch (nitro::except::exception&)
+        {
+            // raising instead of yielding partial output: nothing of the formatter may have reached the stream
+            if (o.str() != "<")
+                return "<<raised after writing " + nv::hex(o.str().substr(1)) + " to the stream>>";
+            throw;
+        }
+        o << ">";
         auto s = o.str();
         return s.substr(1, s.size() - 2);
     }
